@@ -149,6 +149,11 @@ def desc_cases(draw):
             cf[str(nc - 1)] = draw(st.sampled_from(["%.1f", "%.7f"]))
         if cf:
             a["column_fmt"], b["column_fmt"] = dict(cf), dict(cf)
+            if draw(st.booleans()):
+                # the same per-column formats spelled the other way round: every column named in column_fmt, fmt (then
+                # unused) something else. Equal precision column by column, so equal content - header included
+                b["column_fmt"] = {str(j): cf.get(str(j), fmt) for j in range(nc)}
+                b["fmt"] = draw(st.sampled_from(["%.1f", "%.9f", "%.4e"]))
     for cfg in (a, b):
         if cfg.get("wrap") and draw(st.integers(0, 3)) == 0 and "\t" not in cfg.get("spacer", " "):
             cfg["data_width"] = "fit+%d" % draw(st.integers(0, 2))
